@@ -77,7 +77,7 @@ func vfAmountArg() (*_Ctype_char, *big.Int) {
 }
 
 // getCallInfo (encoding/json decoder) is replaced under the engine by this function, exact for the two argument
-// strings the deploy harness uses.
+// strings the deploy harness uses and for the query payload of VF_C20_c.
 func vfGetCallInfo(ci interface{}, args []byte, contractAddress []byte) error {
 	switch string(args) {
 	case "":
@@ -85,6 +85,11 @@ func vfGetCallInfo(ci interface{}, args []byte, contractAddress []byte) error {
 	case "[]":
 		if p, ok := ci.(*[]interface{}); ok {
 			*p = []interface{}{}
+			return nil
+		}
+	case `{"Name":"f","Args":[]}`:
+		if p, ok := ci.(*types.CallInfo); ok {
+			p.Name, p.Args = "f", []interface{}{}
 			return nil
 		}
 	}
